@@ -560,24 +560,52 @@ func child(stream string) {
 	if known {
 		rounds = vh.Pick(40, 400)
 	}
-	for round := 0; round < rounds; round++ {
-		done := make(chan struct{})
-		go func() {
-			defer close(done)
-			runRound(col, round, known, wants, rxWants)
-		}()
-		select {
-		case <-done:
-		case <-time.After(60 * time.Second):
-			col.diff(vh.Diff{Component: "C12-result", Input: fmt.Sprintf("round %d of stream %s (VERIF_SEED=%d)", round, stream, vh.Seed()), Impl: "TIMEOUT",
-				Model: "every call returns"})
-			col.mu.Lock()
-			res.Print()
-			col.mu.Unlock()
-			return
-		}
+	// four rounds in flight at a time: more schedules, and unrelated schemas
+	// being compiled and used next to each scenario
+	var next int64
+	var nmu sync.Mutex
+	take := func() int {
+		nmu.Lock()
+		defer nmu.Unlock()
+		next++
+		return int(next - 1)
 	}
+	timedOut := make(chan int, 8)
+	var wg sync.WaitGroup
+	for w := 0; w < 4; w++ {
+		wg.Add(1)
+		go func() {
+			defer wg.Done()
+			for {
+				round := take()
+				if round >= rounds {
+					return
+				}
+				done := make(chan struct{})
+				go func() {
+					defer close(done)
+					runRound(col, round, known, wants, rxWants)
+				}()
+				select {
+				case <-done:
+				case <-time.After(60 * time.Second):
+					timedOut <- round
+					return
+				}
+			}
+		}()
+	}
+	finished := make(chan struct{})
+	go func() { wg.Wait(); close(finished) }()
+	select {
+	case <-finished:
+	case round := <-timedOut:
+		col.diff(vh.Diff{Component: "C12-result", Input: fmt.Sprintf("round %d of stream %s (VERIF_SEED=%d)", round, stream, vh.Seed()), Impl: "TIMEOUT",
+			Model: "every call returns"})
+	}
+	col.mu.Lock()
 	res.Print()
+	col.mu.Unlock()
 }
 
 // Run is the command c12-concurrent (cmd/vhrace).  Args: --with-known also
@@ -620,13 +648,13 @@ func Run(args []string) {
 				Impl: "DATA RACE: " + r.Text, Model: "no data race", Class: class})
 		}
 		rep.Stats["distinct_race_reports_"+stream] = len(races)
+		if res != nil {
+			rep.Stats["result_diffs_"+stream] = res.NDiffs
+		}
 	}
 	runStream("main", "")
 	if withKnown {
 		runStream("known", "K-C12-allof")
-	}
-	for _, d := range rep.Diffs {
-		_ = d
 	}
 	rep.Extra["known_stream"] = fmt.Sprint(withKnown)
 	rep.Finish()
